@@ -145,6 +145,17 @@ def c14_random(rng):
                 continue
             rules.append({"remote": remote, "mtype": "CON", "nth": k, "do": do,
                           "after": rng.choice([100, 20000, M, 5 * M]), "body": k})
+    # the same peers also send us requests that are answered late (separate CON responses compete
+    # with our own CON requests for the one exchange per remote)
+    if rng.random() < 0.5:
+        srv = 0
+        for i in range(rng.randrange(1, 3)):
+            remote = rng.randrange(nrem)
+            t = clock.at(rng.randrange(500, max(1000, clock.t)))
+            events.append(request_in(t, remote, 800 + i, "%02x" % (0xe0 + i), mtype="CON", body=i))
+            events.append(respond(clock.at(t + 104858 + rng.randrange(10, 3 * M)), srv, body=50 + i))
+            draws.append(rng.randrange(2 * M, 3 * M + 1))
+            srv += 1
     if rng.random() < 0.3:
         events.append(["E", clock.after(1, 30 * M), rng.randrange(nrem)])
     if rng.random() < 0.2:
@@ -157,6 +168,18 @@ def c14_random(rng):
 def c14_boundary():
     scripts = []
     # three CONs and a NON to A, one CON to B; ACK, RST, silence, error variations
+    # a separate CON response and an own CON request to the same peer: one must wait for the other
+    for first in ("request", "response"):
+        ev = [request_in(1000, 0, 700, "e1", mtype="CON", body=1)]
+        if first == "request":
+            ev += [submit(150000, 0, 0, rel=True), respond(200000, 0, body=60)]
+        else:
+            ev += [respond(150000, 0, body=60), submit(200000, 0, 0, rel=True)]
+        ev.append(far_end(ev))
+        rules = [{"remote": 0, "mtype": "CON", "nth": 1, "do": "ack", "after": 3 * M},
+                 {"remote": 0, "mtype": "CON", "nth": 2, "do": "ack", "after": 3 * M}]
+        scripts.append({"events": ev, "rules": rules, "draws": [2 * M + 11, 2 * M + 13],
+                        "tag": "nstart:separate-response-vs-" + first})
     for variant in ("ack-ack-ack", "ack-rst-ack", "silence", "error", "rst-first", "piggy"):
         ev = [submit(1000, 0, 0, rel=True), submit(1010, 1, 0, rel=True), submit(1020, 2, 0, rel=True),
               submit(1030, 3, 0, rel=False), submit(1040, 4, 1, rel=True)]
